@@ -130,10 +130,269 @@ class ISLoop(LoopContract):
 IntermediateStateCallee.loops = {0: ISLoop()}
 
 
+# --- s_root: n-th order coefficient of S^(-1/2) ---------------------------------------------------
+#   (S^-1/2)^(n)_{I,I'} = sum_{k=1}^{n//2} binom(-1/2, k) sum_{compositions c of n into k parts >= 2}
+#                         (1/(n_o! n_v!))^(k-1)  S^(c_1)_{I,X1} S^(c_2)_{X1,X2} ... S^(c_k)_{X(k-1),I'}
+# the intermediate index sets X_j are summed without restriction: every such sum carries the
+# weight 1/(n_o! n_v!) of the excitation class (the documented convention, cf. intermediate_state
+# and the lower-class projector of precursor).
+from spec.exprval import POW, pow_axioms
+
+SR_OVL = z3.Function("precursor_overlap_along_the_chain", z3.IntSort(), z3.IntSort(), z3.IntSort(), z3.RealSort())
+SR_PROD = z3.Function("sroot_prefix_product", z3.IntSort(), z3.IntSort(), z3.IntSort(), z3.IntSort(), z3.RealSort())
+SR_INNER = z3.Function("sroot_prefix_sum_over_compositions", z3.IntSort(), z3.IntSort(), z3.IntSort(), z3.RealSort())
+SR_OUTER = z3.Function("sroot_prefix_sum_over_powers", z3.IntSort(), z3.IntSort(), z3.RealSort())
+HALF = z3.RealVal("-1/2")
+
+
+def _chain_code(pos, L):
+    """identity of the pos-th index string of a chain of L factors: I (0), the generic index
+    sets X_1 .. X_(L-1), and I' (coded -1) at position L"""
+    return z3.If(pos == L, z3.IntVal(-1), pos)
+
+
+def _taylor_pref(vc, k):
+    """binom(-1/2, k) as delivered by expand_S_taylor"""
+    vc.assume(TAYC(HALF, 0) == 1)
+    vc.assume(z3.Implies(k >= 0, TAYC(HALF, k + 1) == TAYC(HALF, k) * (HALF - z3.ToReal(k))))
+    vc.assume(G.FACT(k) >= 1)
+    return TAYC(HALF, k) / z3.ToReal(G.FACT(k))
+
+
+def _cf_weight(vc, space, L):
+    cf = M.class_factor(space)
+    pow_axioms(vc, cf, L - 1)
+    return POW(cf, L - 1)
+
+
+def _expand_s_taylor_callers_view(self, vc, a):
+    """callers' view of expand_S_taylor (the function is verified below)"""
+    n, m = a["order"], a.get("min_order", 2)
+    if vc.decide(zor(term(n) < 0, term(m) <= 0)):
+        raise RaiseEx("Inputerror")
+    if vc.decide(term(n) < term(m)):
+        return PList([(1, PList([(n,)]))])
+    return Struct("STaylorListV", n=term(n), m=term(m))
+
+
+def _staylor_symiter(ip, obj):
+    from pyvc.builtins import SymIter
+    n, m = obj.f["n"], obj.f["m"]
+
+    def item(ip_, e):
+        k = term(e) + 1
+        pref = mk_expr(_taylor_pref(ip_.vc, k), False)
+        pref.f["stamps"] = frozenset()
+        return (pref, Struct("Compositions", n=n, L=k, m=m))
+    return SymIter("taylor-list", obj, Sym(n / m), item)
+
+
+C.STRUCT_SYMITER["STaylorListV"] = _staylor_symiter
+C.STRUCT_LEN["STaylorListV"] = lambda ip, v: Sym(v.f["n"] / v.f["m"])
+C.STRUCT_LEN["CompTuple"] = lambda ip, v: Sym(v.f["L"])
+
+# the list of index strings [I, X1, .., X(K-1), I']
+C.STRUCT_METHODS[("IdxChain", "insert")] = lambda ip, o, a, k: None
+
+
+def _chain_subscript(ip, obj, idx):
+    if isinstance(idx, int) and idx == -1:
+        return Struct("ChainIdx", pos=z3.IntVal(-1), L=z3.IntVal(-1))
+    if isinstance(idx, tuple) and idx and idx[0] == "slice" and idx[1] in (None, 0) and idx[3] is None:
+        L = term(idx[2])
+        ip.vc.check("chain#prefix-of-the-index-list-has-enough-generic-index-sets", L <= obj.f["K"])
+        return Struct("ChainPrefix", L=L)
+    raise Unsupported("this access to the list of index strings")
+
+
+C.STRUCT_SUBSCRIPT["IdxChain"] = _chain_subscript
+
+
+def _prefix_arith(ip, opn, a, b):
+    if opn == "Add" and isinstance(a, Struct) and a.cls == "ChainPrefix" and isinstance(b, PList) and \
+            len(b.items) == 1 and isinstance(b.items[0], Struct) and b.items[0].cls == "ChainIdx":
+        return Struct("RelIdx", start=z3.IntVal(0), L=a.f["L"])
+    raise Unsupported("arithmetic on the list of index strings")
+
+
+C.STRUCT_ARITH["ChainPrefix"] = _prefix_arith
+
+
+def _rel_subscript(ip, obj, idx):
+    st, L = obj.f["start"], obj.f["L"]
+    if isinstance(idx, int) and idx == 0:
+        return Struct("ChainIdx", pos=st, L=L)
+    if isinstance(idx, tuple) and idx and idx[0] == "slice" and idx[1] in (None, 0) and idx[2] == 2:
+        ip.vc.check("chain#two-index-strings-are-left-for-the-factor", st + 1 <= L)
+        return (Struct("ChainIdx", pos=st, L=L), Struct("ChainIdx", pos=st + 1, L=L))
+    raise Unsupported("this access to the remaining index strings")
+
+
+def _rel_del(ip, obj, args, kwargs):
+    if args[0] != 0:
+        raise Unsupported("del of another position")
+    obj.f["start"] = obj.f["start"] + 1
+
+
+C.STRUCT_SUBSCRIPT["RelIdx"] = _rel_subscript
+C.STRUCT_METHODS[("RelIdx", "__delitem__")] = _rel_del
+C.STRUCT_LEN["RelIdx"] = lambda ip, v: Sym(v.f["L"] + 1 - v.f["start"])
+
+
+def _chainidx_eq(ip, a, b):
+    for x, y in ((a, b), (b, a)):
+        if isinstance(x, Struct) and x.cls == "ChainIdx" and isinstance(y, str):
+            st = ip.vc.ghost["_sr"]
+            code = _chain_code(x.f["pos"], x.f["L"]) if not z3.eq(x.f["L"], z3.IntVal(-1)) else z3.IntVal(-1)
+            if y == st["last"]:
+                return code == -1
+            if y == st["first"]:
+                return code == 0
+            return False
+    return a is b
+
+
+C.STRUCT_EQ["ChainIdx"] = _chainidx_eq
+
+
+class _SrChainLoop(LoopContract):
+    """for _ in range(len(taylor_expansion) - 1): idx.insert(-1, <fresh generic index string>)"""
+    modifies = ("new_idx",)
+
+    def havoc(self, vc, frame, k, seq):
+        t = frame["taylor_expansion"]
+        K = (t.f["n"] / t.f["m"]) if isinstance(t, Struct) else z3.IntVal(1)
+        frame["idx"] = Struct("IdxChain", K=K)
+        for nm in ("_", "new_idx"):
+            frame.locals.pop(nm, None)
+
+
+class _SrPowerLoop(LoopContract):
+    def havoc(self, vc, frame, k, seq):
+        e = mk_expr(vc.fresh_real("s_root"), False)
+        e.f["stamps"] = frozenset()
+        frame["res"] = e
+        for nm in ("pref", "termlist", "term", "i1", "o", "relevant_idx"):
+            frame.locals.pop(nm, None)
+
+    def invariant(self, vc, frame, k, seq):
+        n = term(frame["order"])
+        kk = term(k)
+        space = frame["block"][0]
+        vc.assume(SR_OUTER(n, 0) == 0)
+        vc.assume(z3.Implies(kk >= 0, SR_OUTER(n, kk + 1) == SR_OUTER(n, kk) +
+                             _taylor_pref(vc, kk + 1) * _cf_weight(vc, space, kk + 1) *
+                             SR_INNER(n, kk + 1, M.NCOMP(n, kk + 1, z3.IntVal(2)))))
+        return [("accumulator-is-prefix-of-the-sum-over-the-powers-of-the-overlap-matrix",
+                 as_expr(frame["res"]).f["val"] == SR_OUTER(n, kk))]
+
+
+class _SrCompLoop(LoopContract):
+    def havoc(self, vc, frame, k, seq):
+        e = mk_expr(vc.fresh_real("s_root"), False)
+        e.f["stamps"] = frozenset()
+        frame["res"] = e
+        for nm in ("term", "i1", "o", "relevant_idx"):
+            frame.locals.pop(nm, None)
+
+    def iter_spec(self, vc, frame, seq):
+        o = frame["termlist"]
+        ok = isinstance(o, Struct) and o.cls == "Compositions"
+        return [("runs-over-the-compositions-of-the-order-into-k-parts-of-at-least-2",
+                 zand(o.f["n"] == term(frame["order"]), o.f["m"] == 2) if ok else False)]
+
+    def invariant(self, vc, frame, k, seq):
+        n = term(frame["order"])
+        L = frame["termlist"].f["L"]
+        c = term(k)
+        space = frame["block"][0]
+        vc.assume(SR_INNER(n, L, 0) == 0)
+        vc.assume(z3.Implies(c >= 0, SR_INNER(n, L, c + 1) == SR_INNER(n, L, c) + SR_PROD(n, L, c, L)))
+        return [("accumulator-is-outer-prefix-plus-coefficient-times-prefix-over-the-compositions",
+                 as_expr(frame["res"]).f["val"] == SR_OUTER(n, L - 1) +
+                 _taylor_pref(vc, L) * _cf_weight(vc, space, L) * SR_INNER(n, L, c)),
+                ("prefactor-is-the-binomial-coefficient", as_expr(frame["pref"]).f["val"] == _taylor_pref(vc, L))]
+
+
+class _SrProdLoop(LoopContract):
+    modifies = ("relevant_idx",)
+
+    def havoc(self, vc, frame, k, seq):
+        e = mk_expr(vc.fresh_real("i1"), False)
+        z = vc.fresh_bool("i1_zero")
+        vc.assume(z3.Implies(z, e.f["val"] == 0))
+        e.f["zero"] = Sym(z)
+        e.f["stamps"] = frozenset()
+        frame["i1"] = e
+        t = frame["term"].f
+        frame["relevant_idx"] = Struct("RelIdx", start=term(k), L=t["L"])
+        frame.locals.pop("o", None)
+
+    def invariant(self, vc, frame, k, seq):
+        t = frame["term"].f
+        n, L, c = t["n"], t["L"], t["k"]
+        j = term(k)
+        space = frame["block"][0]
+        vc.assume(SR_PROD(n, L, c, 0) == 1)
+        vc.assume(z3.Implies(j >= 0, SR_PROD(n, L, c, j + 1) == SR_PROD(n, L, c, j) *
+                             SR_OVL(M.COMP(n, L, z3.IntVal(2), c, j), _chain_code(j, L), _chain_code(j + 1, L))))
+        rel = frame["relevant_idx"]
+        ok = isinstance(rel, Struct) and rel.cls == "RelIdx"
+        return [("product-is-coefficient-times-class-weights-times-prefix-of-the-chain-product",
+                 as_expr(frame["i1"]).f["val"] ==
+                 _taylor_pref(vc, L) * _cf_weight(vc, space, L) * SR_PROD(n, L, c, j)),
+                ("remaining-index-strings-start-at-the-current-factor",
+                 z3.And(rel.f["start"] == j, rel.f["L"] == L) if ok else False)]
+
+    def at_break(self, vc, frame, k, seq):
+        t = frame["term"].f
+        n, L, c = t["n"], t["L"], t["k"]
+        j = term(k)
+        vc.assume(z3.Implies(z3.And(SR_PROD(n, L, c, j + 1) == 0, j + 1 <= L), SR_PROD(n, L, c, L) == 0))
+        # (the assert behind the loop expects all index strings to be consumed: it fires
+        #  when the product vanishes before the last factor - see may_raise)
+        vc.ghost["_sr_left_before_last_factor"] = j + 1 < L
+        return [("left-early-only-with-a-vanishing-product", as_expr(frame["i1"]).f["val"] == 0)]
+
+
 @register
-class SRoot(_Assumed):
+class SRoot(Contract):
     key = ISR + ".s_root"
-    note = "n-th order coefficient of (S^-1/2)_{I,J} (not yet under contract; bounded: overlap_isr.orthonormal)"
+    props = ["C04", "C03", "C05"]
+    note = "n-th order coefficient of (S^-1/2)_{I,I'}"
+    loops = {0: _SrChainLoop(), 1: _SrPowerLoop(), 2: _SrCompLoop(), 3: _SrProdLoop()}
+    CASES = [("pp", "ph,ph", "ia,jb"), ("pp", "pphh,pphh", "ijab,klcd"), ("ip", "phh,phh", "ija,klb"),
+             ("ip", "h,h", "i,j"), ("pp", "ph,pphh", "ia,jkbc"), ("pp", "ph,ph", "ia,ib")]
+    split_first_choice = len(CASES)
+
+    def setup(self, vc):
+        from pyvc.builtins import b_tuple
+        from pyvc.values import PyFunc
+
+        def tuple_model(ip, args, kwargs):
+            if args and isinstance(args[0], tuple) and args[0] and isinstance(args[0][0], Struct) \
+                    and args[0][0].cls == "ChainIdx":
+                return args[0]
+            return b_tuple(ip, args, kwargs)
+        vc.ip.builtins = dict(vc.ip.builtins, tuple=PyFunc(tuple_model, "tuple"))
+        variant, block, idx = self.CASES[vc.choose(len(self.CASES), "case")]
+        parts = idx.split(",")
+        vc.ghost["_sr"] = {"first": parts[0], "last": parts[-1]}
+        return {"self": new_isr(vc, variant), "order": Sym(vc.fresh_int("order")), "block": block,
+                "indices": idx}
+
+    def raises(self, vc, a):
+        b, i = a["block"].split(","), a["indices"].split(",")
+        rep = len(i) == 2 and bool(set(G.split_names(i[0])) & set(G.split_names(i[1])))
+        return [("Inputerror", zor(bad_order(a["order"]), len(i) != 2, rep)),
+                ("NotImplementedError", zand(znot(bad_order(a["order"])), len(i) == 2, not rep,
+                                             len(b) == 2 and b[0] != b[1]))]
+
+    def may_raise(self, vc, a):
+        # latent: a structurally vanishing overlap in front of the last factor of a chain trips
+        # the consistency assert of the index bookkeeping (no such overlap is known)
+        cond = vc.ghost.get("_sr_left_before_last_factor")
+        return [("AssertionError", cond if cond is not None else z3.BoolVal(False))]
 
     def apply(self, vc, a):
         block, idx = a["block"], a["indices"]
@@ -144,6 +403,13 @@ class SRoot(_Assumed):
         e = mk_expr(M.real_of("SROOT", block, idx)(term(a["order"])), False)
         e.f["stamps"] = frozenset([("s_root", (block, idx, str(term(a["order"]))), True)])
         return e
+
+    def post(self, vc, a, result):
+        n = term(a["order"])
+        val = z3.RealVal(result) if isinstance(result, int) else as_expr(result).f["val"]
+        below = SR_OVL(n, z3.IntVal(0), z3.IntVal(-1))
+        return [("is-the-series-coefficient-of-the-inverse-square-root-with-class-weights",
+                 val == z3.If(n < 2, below, SR_OUTER(n, n / 2)))]
 
 
 # --- precursor states ------------------------------------------------------------------
@@ -480,6 +746,34 @@ class OverlapPrecursor(_OverlapBase):
     tag = "overlap_precursor"
     loops = _mk_loops("overlap_precursor", "PRECURSOR")
 
+    def apply(self, vc, a):
+        ind = a.get("indices")
+        if isinstance(ind, tuple) and len(ind) == 2 and all(isinstance(x, Struct) and x.cls == "ChainIdx"
+                                                            for x in ind):
+            # callers' view inside s_root: element of the n-th order precursor overlap matrix
+            # between two index strings of the chain [I, X1, .., I']
+            if vc.decide(bad_order(a["order"])):
+                raise RaiseEx("Inputerror")
+            ca, cb = (_chain_code(x.f["pos"], x.f["L"]) for x in ind)
+            e = mk_expr(SR_OVL(term(a["order"]), ca, cb), False)
+            z = vc.fresh_bool("ovl_zero")
+            vc.assume(z3.Implies(z, e.f["val"] == 0))
+            e.f["zero"] = Sym(z)
+            e.f["stamps"] = new_stamp(vc, "overlap_precursor")
+            return e
+        st = vc.ghost.get("_sr")
+        if st and isinstance(ind, tuple) and ind == (st["first"], st["last"]):
+            # below second order the list of index strings is just [I, I']
+            if vc.decide(bad_order(a["order"])):
+                raise RaiseEx("Inputerror")
+            e = mk_expr(SR_OVL(term(a["order"]), z3.IntVal(0), z3.IntVal(-1)), False)
+            z = vc.fresh_bool("ovl_zero")
+            vc.assume(z3.Implies(z, e.f["val"] == 0))
+            e.f["zero"] = Sym(z)
+            e.f["stamps"] = new_stamp(vc, "overlap_precursor")
+            return e
+        return Contract.apply(self, vc, a)
+
     def raises(self, vc, a):
         base = super().raises(vc, a)[0][1]
         parts = a["indices"].split(",")
@@ -635,6 +929,9 @@ class _TaylorBase(Contract):
 class ExpandSTaylor(_TaylorBase):
     key = ISR + ".expand_S_taylor"
     loops = {0: type("L", (TaylorLoop,), {"alpha": "-1/2"})()}
+
+
+ExpandSTaylor.apply = _expand_s_taylor_callers_view
 
 
 @register
